@@ -28,10 +28,13 @@ CHECKS = {   # lemma name in the shards -> (check expression, domain)
 }
 THEOREMS = {
     "C04": [("C04_source_issues_specified_calls", "sh_c04")],
-    "C05": [("C05_source_issues_specified_calls", "sh_c05")],
+    "C05": [("C05_source_issues_specified_calls", "sh_c05"), ("SRC_loops_as_specified", "loops_ok")],
+    "C06": [("C06_source_shuffle_is_model", "fd_ok")],
+    "C08": [("SRC_loops_as_specified", "loops_ok")],
     "C16": [("C16_source_issues_specified_calls", "sh_c16")],
     "C07": [("C07_source_issues_specified_calls", "sh_c07_calls"), ("C07_source_failed_step_never_runs", "sh_c07_fates"),
-            ("C07_source_refusal_never_runs", "sh_c07_refusal"), ("C07_source_gate_before_exec", "sh_c07_gate")],
+            ("C07_source_refusal_never_runs", "sh_c07_refusal"), ("C07_source_gate_before_exec", "sh_c07_gate"),
+            ("SRC_loops_as_specified", "loops_ok")],
 }
 TIERS = {
     # quick: the twelve interacting options exhaustively x the nine others all off / all on (failing steps: all on)
@@ -96,7 +99,8 @@ def compute(tier, log=lambda *a: None):
             _compute(tier, d, res, log)
         finally:
             res["wall_s"] = round(time.time() - res.pop("t0"), 1)
-            shutil.rmtree(d, ignore_errors=True)
+            if not os.environ.get("VERIF_SRCTHM_KEEP"):
+                shutil.rmtree(d, ignore_errors=True)
         with open(cfile, "w") as f:
             json.dump(res, f, indent=1)
         return res
@@ -145,6 +149,16 @@ def _compute(tier, d, res, log):
             open(os.path.join(d, fn), "w").write(
                 hdr + "Lemma %s : shard_ok %s %s %s = true.\nProof. vm_compute. reflexivity. Qed.\n" % (lem, chk, dom, _bits(k)))
             jobs.append((k, lem, fn))
+    open(os.path.join(d, "PL_loops.v"), "w").write(
+        hdr + "Lemma loops_ok : check_loops_list flags_plain loop_cases && check_loops_list flags_rooted loop_cases = true.\nProof. vm_compute. reflexivity. Qed.\n")
+    jobs.append((-1, "loops_ok", "PL_loops.v"))
+    open(os.path.join(d, "PF_fd.v"), "w").write(hdr + "Lemma fd_ok : check_fd_list fd_cases = true.\nProof. vm_compute. reflexivity. Qed.\n")
+    jobs.append((-1, "fd_ok", "PF_fd.v"))
+    for lem, (chk, dom) in CHECKS.items():
+        if lem != "sh_c07_fates":
+            fn = "PX_%s.v" % lem
+            open(os.path.join(d, fn), "w").write(hdr + "Lemma %s : cross_ok %s = true.\nProof. vm_compute. reflexivity. Qed.\n" % (lem, chk))
+            jobs.append((-2, lem, fn))
     from concurrent.futures import ThreadPoolExecutor
     failed = {}
     def one(j):
@@ -163,11 +177,33 @@ def _compute(tier, d, res, log):
         res.update(ok=False, stage="theorems")
         # 3. diagnosis: the first configuration of the domain on which each failing check is false, with what the source does there
         for lem in sorted(failed):
+            if lem == "fd_ok":
+                body = (hdr + "From Coq Require Import ZArith.\nOpen Scope Z_scope.\nDefinition bad := Eval vm_compute in "
+                        "match find (fun c => negb (check_fd c)) fd_cases with Some c => Some (c, fd_calls (ocalls (snd (run_src ok_orc (env_fd c))))) | None => None end.\nPrint bad.\n")
+                open(os.path.join(d, "D_fd.v"), "w").write(body)
+                rc, out, err, dt = _coqc(d, "D_fd.v", timeout=2400)
+                res["diag"][lem] = {"coq": (out if rc == 0 else err)[-4000:]}
+                m = re.search(r"fc_files := \[(.*?)\];\s*fc_pipe := (\S+?);\s*fc_exec := (\S+?);\s*fc_closed := \[(.*?)\]", out, re.S)
+                if m:
+                    res["diag"][lem]["case"] = {"files": [int(x.strip().strip("()")) for x in m.group(1).split(";") if x.strip()],
+                                                "pipe": int(m.group(2).strip("()")), "exec": int(m.group(3).strip("()")),
+                                                "closed": [int(x.strip().strip("()")) for x in m.group(4).split(";") if x.strip()]}
+                continue
+            if lem == "loops_ok":
+                body = (hdr + "Definition bad := Eval vm_compute in (find (fun c => negb (check_loops flags_plain (fst c) (snd c))) loop_cases, "
+                        "find (fun c => negb (check_loops flags_rooted (fst c) (snd c))) loop_cases).\nPrint bad.\n")
+                open(os.path.join(d, "D_loops.v"), "w").write(body)
+                rc, out, err, dt = _coqc(d, "D_loops.v", timeout=2400)
+                res["diag"][lem] = {"coq": (out if rc == 0 else err)[-4000:]}
+                continue
             chk, dom = CHECKS[lem]
-            body = (hdr + "Definition bad := Eval vm_compute in first_bad %s %s.\nPrint bad.\n"
-                    "Definition shown := Eval vm_compute in match bad with Some (a, b) => match mk a b with Some f => "
-                    "Some (ocalls (snd (fst (run_src ok_orc (env_of f)))) ++ ocalls (snd (run_src ok_orc (env_of f))), ocalls (pre_spec f) ++ calls_of f) | None => None end | None => None end.\nPrint shown.\n"
-                    % (chk, dom))
+            keep = {"sh_c04": "k04", "sh_c05": "k05", "sh_c16": "k16", "sh_c07_calls": "k07"}.get(lem, "(fun _ => true)")
+            finder = "first_bad %s %s" % (chk, dom)
+            if all(k == -2 for k, _ in failed[lem]):
+                finder = "first_bad_cross %s" % chk      # only the cross domain fails
+            body = (hdr + "From Coq Require Import String ZArith.\nOpen Scope string_scope.\nOpen Scope Z_scope.\n"
+                    "Definition bad := Eval vm_compute in %s.\nPrint bad.\n"
+                    "Definition shown := Eval vm_compute in show_bad %s bad.\nPrint shown.\n" % (finder, keep))
             fn = "D_%s.v" % lem
             open(os.path.join(d, fn), "w").write(body)
             rc, out, err, dt = _coqc(d, fn, timeout=2400)
@@ -195,7 +231,7 @@ def _compute(tier, d, res, log):
     if bad:
         res.update(ok=False, stage="combine", detail=bad[0][2][-2000:])
         return
-    rc, out, err, dt = _coqc(d, "ChildSrcThm.v")
+    rc, out, err, dt = _coqc(d, "ChildSrcThm.v", timeout=600)
     res["cmds"].append("coqc -Q theories GS -Q . Gen ChildSrcThm.v   (Print Assumptions under every theorem)")
     if rc != 0:
         res.update(ok=False, stage="combine", detail=err[-3000:])
